@@ -16,8 +16,8 @@ from concurrent.futures import ThreadPoolExecutor
 from vlib import common, tla, graphwalk
 
 PROP = "C11"
-OPS = {"Open": "open", "Proceed": "proceed", "ClientClose": "close", "Cleanup": "cleanup",
-       "SendStart": "sstart", "SendEnd": "send"}
+OPS = {"Open": "open", "Proceed": "proceed", "ClientClose": "close", "CleanupBegin": "cleanupbegin", "Cleanup": "cleanup",
+       "SendStart": "sstart", "SendAcquire": "sacq", "SendEnd": "send"}
 
 
 def model_check(run, tier):
@@ -48,12 +48,22 @@ def schedules_from_graph(g, paths, rnd, prefix):
     for n, path in enumerate(paths):
         nodes = [g.nodes[x] for x in graphwalk.path_nodes(g, path)]
         steps = []
-        for i in path:
+        nprobe = 0
+        for k, i in enumerate(path):
             _, _, name, args = g.edges[i]
             st = {"op": OPS[name], "arg": args[0]}
             if name == "SendStart":
                 st["kind"] = rnd.choice(["notif", "notif", "request"])
             steps.append(st)
+            if name == "SendAcquire" and nodes[k + 1]["spc"][args[0]] == "done":
+                steps.append({"op": "send", "arg": args[0]})
+            # an ungated probe wherever the oracle is strict and no scheduled send is parked inside a write lock
+            after = nodes[k + 1]
+            nw = after["newest"]
+            if name in ("Cleanup", "Proceed", "Open", "SendEnd", "CleanupBegin") and nw != "none" and nw not in after["dropped"] \
+                    and all(v != "writing" for v in after["spc"].values()) and rnd.random() < 0.7:
+                nprobe += 1
+                steps.append({"op": "probe", "arg": "pr%d" % nprobe, "_expect": nw, "_pos": k + 1})
         out.append({"id": "%s%d" % (prefix, n), "steps": steps, "gated": True, "_path": path, "_nodes": nodes})
     return out
 
@@ -62,7 +72,9 @@ def run_schedules(scheds, nproc=8):
     """Run schedules on the harness, several processes in parallel."""
     chunks = [[] for _ in range(nproc)]
     for i, s in enumerate(scheds):
-        chunks[i % nproc].append({k: v for k, v in s.items() if not k.startswith("_")})
+        pub = {k: v for k, v in s.items() if not k.startswith("_")}
+        pub["steps"] = [{k: v for k, v in st.items() if not k.startswith("_")} for st in s["steps"]]
+        chunks[i % nproc].append(pub)
     chunks = [c for c in chunks if c]
 
     def one(chunk):
@@ -90,7 +102,7 @@ def run_schedules(scheds, nproc=8):
 def judge(run, g, s, r):
     """Compare what the real code did on schedule s with the oracle in the graph states."""
     nodes = s["_nodes"]
-    replay = {"schedule": {k: v for k, v in s.items() if not k.startswith("_")}, "result": r,
+    replay = {"schedule": {"id": s["id"], "gated": True, "steps": [{k: v for k, v in st.items() if not k.startswith("_")} for st in s["steps"]]}, "result": r,
               "spec": "GetStream (oracle: SendConforms)", "constants": "FlushFirst/DeleteByKey as-built-shaped graph"}
     if r.get("crash"):
         hist = " ".join("%s(%s)" % (st["op"], st["arg"]) for st in s["steps"])
@@ -101,14 +113,18 @@ def judge(run, g, s, r):
     obs = [o for o in r["obs"] if o["op"] == "send"]
     oi = 0
     strict = False
+    byk = {o["arg"]: o for o in obs}
     for pos, ei in enumerate(s["_path"]):
         _, _, name, args = g.edges[ei]
-        if name != "SendEnd":
+        if name not in ("SendEnd", "SendAcquire"):
             continue
         k = args[0]
+        if nodes[pos + 1]["spc"][k] != "done":
+            continue
         exp = nodes[pos]["exp"][k]
-        o = obs[oi]
-        oi += 1
+        o = byk.get(k)
+        if o is None:
+            continue
         if exp != "any":
             strict = True
             if not (o["ok"] and o["on"] == exp):
@@ -116,6 +132,16 @@ def judge(run, g, s, r):
                 key = classify(g, s, pos)
                 run.diverge(key, "send %s must arrive on %s (newest stream, headers received) but ok=%s on=%s err=%s; history: %s"
                             % (k, exp, o["ok"], o["on"], o.get("err"), hist), replay)
+    probes = {o["arg"]: o for o in r["obs"] if o["op"] == "probe"}
+    for st in s["steps"]:
+        if st["op"] != "probe" or st["arg"] not in probes:
+            continue
+        o = probes[st["arg"]]
+        strict = True
+        if not (o["ok"] and o["on"] == st["_expect"]):
+            hist = " ".join("%s(%s)" % (x["op"], x["arg"]) for x in s["steps"][:s["steps"].index(st) + 1])
+            run.diverge(classify(g, s, st["_pos"]), "a send must arrive on %s (newest stream, headers received, not dropped) but ok=%s on=%s err=%s; history: %s"
+                        % (st["_expect"], o["ok"], o["on"], o.get("err"), hist), replay)
     final = nodes[-1]
     newest, dropped = final["newest"], final["dropped"]
     if newest != "none" and newest not in dropped:
@@ -145,6 +171,8 @@ def classify(g, s, pos):
     for i, ei in enumerate(s["_path"][:pos]):
         _, _, name, args = g.edges[ei]
         if name == "Cleanup" and nodes[i]["table"] != args[0] and nodes[i]["table"] != "none":
+            return "window=exit-deletes-newer-entry"
+        if name == "Cleanup" and nodes[i]["mine"][args[0]] and nodes[i]["table"] != args[0]:
             return "window=exit-deletes-newer-entry"
     return "window=other"
 
@@ -201,6 +229,8 @@ def validate_traces(run, items):
         run.traces += idx
         rejected[bad] = lines[hwm]
         pending = pending[idx + 1:]
+        if len(rejected) >= 4:
+            break
     return rejected
 
 
@@ -244,15 +274,17 @@ def run(tier, replay=None):
     r = tla.run_tlc("GetStream", cfg, dump=True)
     run_.add_tlc(r)
     g = r.graph
-    paths = graphwalk.edge_cover_paths(g, max_len=40, rnd=rnd)
+    paths = graphwalk.edge_cover_paths(g, max_len=45, rnd=rnd)
     scheds = schedules_from_graph(g, paths, rnd, "p")
     exhaustive = True
     if tier == "thorough":
-        r2 = tla.run_tlc("GetStream", "GetStream_sched_thorough.cfg", dump=True)
-        run_.add_tlc(r2)
-        g2 = r2.graph
-        walks = graphwalk.random_walks(g2, 1500, 40, rnd)
-        scheds2 = schedules_from_graph(g2, walks, rnd, "w")
+        rq = tla.run_tlc("GetStream", "GetStream_sched_quick.cfg", dump=True)
+        run_.add_tlc(rq)
+        g2 = rq.graph
+        walks = graphwalk.edge_cover_paths(g2, max_len=45, rnd=rnd) + graphwalk.random_walks(g, 1500, 45, rnd)
+        scheds2 = schedules_from_graph(g2, walks[:len(walks) - 1500], rnd, "q") + schedules_from_graph(g, walks[len(walks) - 1500:], rnd, "w")
+        for sc in scheds2:
+            sc["_g"] = g2 if sc["id"].startswith("q") else g
     results = run_schedules(scheds, nproc=12)
     unreal = 0
     items = []
@@ -273,7 +305,7 @@ def run(tier, replay=None):
         results2 = run_schedules(scheds2, nproc=12)
         for s in scheds2:
             res = results2[s["id"]]
-            verdict = judge(run_, g2, s, res)
+            verdict = judge(run_, s["_g"], s, res)
             run_.evaluations += 1
             total += 1
             if verdict == "unrealised":
